@@ -82,7 +82,42 @@ def full_history(rng, cfg):
         newreq()
     return ops
 
+def reconnect_history(rng, cfg):
+    """a stream server loses its connection while requests are outstanding -- also the one holding identifier 0 when
+    status-server is off: after the reconnect every one of them is sent again and keeps its identifier, nobody else
+    gets it"""
+    ops = []
+    now = 1000005
+    idc = rng.randrange(256)
+    def rq():
+        nonlocal idc
+        pkt, _ = pipeline.clean_request(rng, cfg, 0, code=1, ident=idc, ma=True)
+        idc = (idc + 1) % 256
+        ops.append('op cpkt 0 %d %s %s' % (now, pipeline.rnd40(rng), hx(pkt)))
+    for _ in range(rng.randrange(1, 4)):
+        rq()
+    ops.append('op wpass 0 %d %s' % (now, pipeline.rnd40(rng)))
+    ops.append('op reconnect 0')
+    if rng.random() < 0.5:
+        rq()
+    ops.append('op wpass 0 %d %s' % (now + 1, pipeline.rnd40(rng)))
+    for _ in range(rng.randrange(1, 4)):
+        rq()
+    ops.append('op wpass 0 %d %s' % (now + 2, pipeline.rnd40(rng)))
+    ops.append('op sreply 0 0 %d %s 2 - 80:auto' % (now + 2, pipeline.rnd40(rng)))
+    rq()
+    return ops
+
 def generate(rng, tier):
+    def modstream(rng, cfg):
+        for s in cfg.servers:
+            s.statsrv = rng.choice([0, 0, 1, 2, 3])
+            s.type = pipeline.T_TCP
+            s.retrycount = None
+        for r in cfg.realms:
+            r.srv = [0]; r.acc = [0]
+        for c in cfg.clients:
+            c.dupint = None; c.reqma = False; c.reqmap = False
     def mod(rng, cfg):
         for s in cfg.servers:
             s.statsrv = rng.randrange(4)
@@ -104,4 +139,5 @@ def generate(rng, tier):
         for c in cfg.clients:
             c.dupint = rng.choice([None, 5, 30])
     out += pipeline.guided_cases(rng, nfull, full_history, 'full', rich=False, cfgmod=modfull)
+    out += pipeline.guided_cases(rng, 120 if tier == 'thorough' else 12, reconnect_history, 'reconn', rich=False, cfgmod=modstream)
     return out
